@@ -262,7 +262,7 @@ def mk_path_node_with_op(e):
     return mk_path_node(e, True)
 
 
-def mk_path_node(e, with_op=False):
+def mk_path_node(e, with_op=False, token=None):
     """a node of the previous stage: token simple or spine operator, header node of its spine, last operator or none"""
     htok = e.new(HeaderToken, {'encoding': e.str_sym('hdr.encoding', ['**kern', '**text']), 'category': TokenCategory.HEADER, 'hidden': False,
                                'spine_id': e.int('hdr.spine_id', 0)}, None)
@@ -271,8 +271,9 @@ def mk_path_node(e, with_op=False):
     if with_op:
         optok = e.new(SpineOperationToken, {'encoding': '*^', 'category': TokenCategory.SPINE_OPERATION, 'hidden': False, 'cancelled_at_stage': None}, None)
         op = e.new(Node, {'id': e.int('op.id', 1), 'token': optok, 'children': [], 'header_node': hdr, 'last_spine_operator_node': None}, None)
-    return e.new(Node, {'id': e.int('id', 1), 'token': e.new(SimpleToken, {'encoding': e.str_sym('tok.encoding'), 'category': e.enum('tok.category', TokenCategory),
-                                                                           'hidden': False}, None),
+    if token is None:
+        token = e.new(SimpleToken, {'encoding': e.str_sym('tok.encoding'), 'category': e.enum('tok.category', TokenCategory), 'hidden': False}, None)
+    return e.new(Node, {'id': e.int('id', 1), 'token': token,
                         'parent': None, 'children': e.mlist('children', lambda e2: e2.new(Node, {'id': e2.int('id')}, None)),
                         'stage': e.int('stage', 0), 'header_node': hdr, 'last_signature_nodes': e.new(SignatureNodes, {'nodes': {}}, None),
                         'last_spine_operator_node': op}, None)
@@ -280,11 +281,9 @@ def mk_path_node(e, with_op=False):
 
 def mk_operator_path_node(e):
     """a node of the previous stage that is itself a spine operator cell (the row before was an operator record)"""
-    n = mk_path_node(e)
     optok = e.new(SpineOperationToken, {'encoding': e.str_sym('optok.encoding', ['*^', '*', '*v']), 'category': TokenCategory.SPINE_OPERATION, 'hidden': False,
                                         'cancelled_at_stage': None}, None)
-    n.token = optok
-    return n
+    return mk_path_node(e, False, optok)
 
 
 def mk_full_importer(g, with_ops=False, parents='cells'):
